@@ -113,6 +113,31 @@ theorem treeReduce_eq_combine (op : M → M → M) (hassoc : ∀ a b c, op (op a
     · rw [treeReduce_eq_combine op hassoc k hk fuel, combine_groups op hassoc,
         partitionAll_flatten k hk ps.length ps (Nat.le_refl _)]
 
+/-! ### size / count -/
+/-- the state of `size` (inject 1 per row, merge by `+`) is the number of rows of the group -/
+theorem size_state_is_count (n : Nat) :
+    fold1 (fun a b : Int => a + b) (List.replicate n (some (1 : Int))) = if n = 0 then none else some (n : Int) := by
+  induction n with
+  | zero => rfl
+  | succ m ih =>
+    rw [List.replicate_succ, ← List.singleton_append, fold1_append _ Int.add_assoc, ih]
+    cases m with
+    | zero => rfl
+    | succ j =>
+      simp only [fold1, List.foldl_cons, List.foldl_nil, omerge, Nat.succ_ne_zero, if_false]
+      congr 1
+      push_cast
+      omega
+
+theorem chunk_size_is_count {V : Type} (rows : List (Nat × V)) (k : Nat) :
+    chunk (fun a b : Int => a + b) (fun _ : V => some (1 : Int)) rows k =
+      if (rows.filter fun r => r.1 == k).length = 0 then none else some ((rows.filter fun r => r.1 == k).length : Int) := by
+  unfold chunk
+  rw [← size_state_is_count]
+  congr 1
+  induction (rows.filter fun r => r.1 == k) with
+  | nil => rfl
+  | cons x xs ih => simp [List.replicate_succ, ih]
 /-! ### first occurrences; list-level shuffle; the shipped rows of a partial -/
 
 theorem mem_dedup {α : Type} [DecidableEq α] (a : α) : ∀ l : List α, a ∈ dedup l ↔ a ∈ l
